@@ -237,6 +237,7 @@ class Exec:
         self.loop_invariants = {}                  # ordinal -> handler
         self._loop_ord = 0
         self.yields = []                           # (value, path) for generator functions
+        self.all_writes = []                       # every plain attribute store on a symbolic object, on any path: (object name, attribute, line)
         self.fn = None
 
     # ---- solver helpers ----------------------------------------------------------------------
@@ -520,6 +521,7 @@ class Exec:
                         continue
                 q.heap[(id(o), tgt.attr)] = v
                 q.writes.append((o.name, tgt.attr))
+                self.all_writes.append((o.name, tgt.attr, getattr(node, "lineno", None)))
                 res.append(("fall", None, q))
             return res
         if isinstance(tgt, ast.Subscript):
